@@ -187,6 +187,7 @@ func RunC05(c *Ctx, r *Report) {
 	w.specCompare(r, prefix+"r-equals-spec", "decode", w.dec)
 	w.unresolvedRule(r, prefix+"resolved", true, true)
 	w.lengthSlotRule(r, prefix+"length-slots")
+	w.nestedDispatchRule(r, prefix+"nested-dispatch")
 	// constants, markers, reserved
 	ruleK := prefix + "constants-and-reserved"
 	r.Rule(ruleK, "the only wire bits the encoder sets to 1 by constant are the type octets of EAP methods and the 'more substructures follow' markers (2 for proposals, 3 for transforms, under 'not last'); reserved fields and the critical bit are never written", 20)
@@ -261,7 +262,8 @@ func RunC05(c *Ctx, r *Report) {
 			r.Check(found, ruleF, "message.Proposal."+field, "-", "appended exactly when "+want, fmt.Sprintf("filed when %v, expected %s", have, want))
 		}
 	}
-	// header length / no check of total length on decode is allowed by the spec entry "decode: ignored"
+	// EAP-AKA' (stream style): token sequences, case sets and the words-to-octets scaling
+	c.akaRules(r, prefix, "decode")
 }
 
 // lengthSlotRule: C05 rule 5 (also used by C12).
